@@ -18,7 +18,11 @@ def run(ctx, prop):
     rng = random.Random(ctx.seed)
     rng.shuffle(plans)
     if quick:
-        plans = plans[:450]
+        # the privileged sessions are sampled on top, so that the share of transfer-port plans stays what it was
+        adm = [p for p in plans if p.get("sess") == "adm"]
+        scan = [p for p in plans if p.get("sess") == "scan"]
+        plans = [p for p in plans if p.get("sess") not in ("adm", "scan")][:450] + adm[:150] + scan[:3]
+        rng.shuffle(plans)
     pp = ctx.path("plans.ndjson")
     with open(pp, "w") as f:
         for p in plans:
